@@ -261,11 +261,22 @@ func adminCmd(r *mon.Rng, st *state) string {
 			}
 		}
 		return string(c)
-	case 2: // aggregation with boundary parameters
+	case 2: // aggregation: every parameter is usually an ordinary value and sometimes a boundary one, so that most
+		// commands are accepted (and then exercised by traffic) with one unusual parameter at a time
 		k := fmt.Sprintf("agg%d", st.n)
 		st.n++
-		return fmt.Sprintf("addAgg %s regex=%s %s %s %s%s", r.Pick(funcs), r.Pick(aggRegexes), "out."+k+r.Pick([]string{"", ".$1", ".$9", ".${1}"}),
-			r.Pick(nums), r.Pick(nums), r.Pick([]string{"", " cache=true", " cache=true", " cache=false", " cache=maybe"})+r.Pick([]string{"", " dropRaw=true", " dropRaw=false"}))
+		pick := func(ordinary, boundary []string) string {
+			if r.Chance(3, 4) {
+				return r.Pick(ordinary)
+			}
+			return r.Pick(boundary)
+		}
+		return fmt.Sprintf("addAgg %s regex=%s %s %s %s%s",
+			pick([]string{"sum", "avg", "max", "last", "count"}, funcs),
+			pick([]string{"^foo", "(.*)", "^servers\\.(.*)", "^(servers|stats|foo)\\.(.*)"}, aggRegexes),
+			"out."+k+r.Pick([]string{"", ".$1", ".$9", ".${1}"}),
+			pick([]string{"1", "5", "10", "60"}, nums), pick([]string{"0", "2", "20", "120"}, nums),
+			r.Pick([]string{"", " cache=true", " cache=true", " cache=false", " cache=maybe"})+r.Pick([]string{"", " dropRaw=true", " dropRaw=false"}))
 	case 3: // carbon route with boundary destination options
 		k := fmt.Sprintf("r%d", st.n)
 		st.n++
